@@ -190,8 +190,9 @@ class Flow:
         return None
 
     def deref(self, node, expr, depth=4):
-        """`expr` with every local that has exactly one reaching definition `x = <attribute path>` replaced by that path
-        (so `implicit = self.event.implicit; ... implicit[0]` reads as `self.event.implicit[0]`)."""
+        """`expr` with every local that has exactly one reaching definition `x = <attribute path>` (or a call-free boolean
+        combination of such paths) replaced by that expression, so `implicit = self.event.implicit; ... implicit[0]` reads
+        as `self.event.implicit[0]` and `need = a and self.b; if need:` reads as `if a and self.b:`."""
         flow = self
 
         def path_like(e):
@@ -201,6 +202,20 @@ class Flow:
                 e = e.value
             return isinstance(e, ast.Name)
 
+        def pure(e):
+            """a call-free boolean / arithmetic combination of attribute paths, constants and ord() / len() of those"""
+            if isinstance(e, ast.BoolOp):
+                return all(pure(v) for v in e.values)
+            if isinstance(e, ast.UnaryOp):
+                return pure(e.operand)
+            if isinstance(e, ast.BinOp):
+                return pure(e.left) and pure(e.right)
+            if isinstance(e, ast.Compare):
+                return all(pure(v) for v in [e.left] + list(e.comparators))
+            if isinstance(e, ast.Call):
+                return isinstance(e.func, ast.Name) and e.func.id in ('ord', 'len') and not e.keywords and all(pure(a) for a in e.args)
+            return isinstance(e, ast.Constant) or path_like(e)
+
         def fn(x):
             if not isinstance(x, ast.Name) or not isinstance(x.ctx, ast.Load) or depth <= 0:
                 return None
@@ -209,13 +224,42 @@ class Flow:
                 return None
             d = next(iter(ds))
             v = Flow.value_of(d)
-            if v is None or not path_like(v) or isinstance(v, ast.Name):
+            if v is None or isinstance(v, (ast.Name, ast.Constant)) or not pure(v):
                 return None
+            # the locals the value is computed from still have the definitions they had when it was computed
+            for y in ast.walk(v):
+                if isinstance(y, ast.Name) and flow.defs(d, y.id) != flow.defs(node, y.id):
+                    return None
             return flow.deref(d, v, depth - 1) if any(isinstance(y, ast.Name) and flow.defs(d, y.id) for y in ast.walk(v)) \
                 else rebuild(v)
         if not any(isinstance(x, ast.Name) and self.defs(node, x.id) for x in ast.walk(expr)):
             return expr
         return rebuild(expr, fn)
+
+    def values(self, node, name, evaltest=None):
+        """[(definition, value expression or None)] for the definitions of `name` reaching `node`; a conditional
+        expression is replaced by the branch(es) evaltest(definition, test) -> True / False / None selects."""
+        out = []
+        for d in self.defs(node, name):
+            v = None if d == Flow.ENTRY else Flow.value_of(d)
+            if v is None:
+                out.append((d, None))
+            else:
+                out.extend((d, leaf) for leaf in expand_ifexp(v, (lambda t, d=d: evaltest(d, t)) if evaltest else None))
+        return out
+
+
+def expand_ifexp(expr, evaltest=None):
+    """the alternatives of a (nested) conditional expression; evaltest(test) may decide which branch is taken."""
+    if isinstance(expr, ast.IfExp):
+        v = evaltest(expr.test) if evaltest is not None else None
+        out = []
+        if v is not False:
+            out.extend(expand_ifexp(expr.body, evaltest))
+        if v is not True:
+            out.extend(expand_ifexp(expr.orelse, evaltest))
+        return out
+    return [expr]
 
 
 def reach(cfg, decide=None, starts=None, blocked=(), follow_exc=True):
@@ -575,12 +619,22 @@ def r_escape_inverse(ctx, repo):
     if not fmts:
         raise AnalysisError('write_double_quoted: numeric escape formats not found')
     # the character variable is the one whose code point is formatted
-    cvars = {x.id for letter, width, node, operand in fmts for x in ast.walk(operand)
-             if isinstance(x, ast.Name) and x.id not in ('ord', 'int', 'hex', 'format')}
+    S = Scenario(repo, f)
+    cvars = set()
+    for letter, width, node, operand in fmts:
+        at = S.nodes_of_stmt(node)
+        for x in ast.walk(operand):
+            if isinstance(x, ast.Name) and x.id not in ('ord', 'int', 'hex', 'format'):
+                # the formatted value is ord(<character>), possibly through a local (code = ord(ch))
+                vals = [v for n in at for d, v in S.flow.values(n, x.id)]
+                if vals and all(isinstance(v, ast.Call) and norm(v.func) == 'ord' and len(v.args) == 1
+                                and isinstance(v.args[0], ast.Name) for v in vals):
+                    cvars |= {v.args[0].id for v in vals}
+                else:
+                    cvars.add(x.id)
     if len(cvars) != 1:
         raise AnalysisError('write_double_quoted: the numeric escapes do not format one character variable (%s)' % sorted(cvars))
     cvar = next(iter(cvars))
-    S = Scenario(repo, f)
     boundary = set('\x00\x1f A~\x7f\xff\u0100\u0fff\u1000\uffff\U00010000\U000fffff\U00100000\U0010ffff')
     reach_by_char = {c: S.reach(env={cvar: c}, must_decide=[cvar], what=' for %r' % c) for c in sorted(boundary)}
     for letter, width, n, operand in fmts:
@@ -671,8 +725,9 @@ def _char_variables(f):
                 out.add(n.targets[0].id)
             elif isinstance(v, ast.Call) and isinstance(v.func, ast.Attribute) and v.func.attr == 'peek':
                 out.add(n.targets[0].id)
-        elif isinstance(n, ast.For) and isinstance(n.target, ast.Name):
-            out.add(n.target.id)
+        elif isinstance(n, ast.For):
+            # for ch in text / for index, ch in enumerate(text)
+            out |= {x.id for x in ast.walk(n.target) if isinstance(x, ast.Name)}
     return out
 
 
@@ -721,11 +776,16 @@ class CharClass:
         self.repo, self.f = repo, f
         vars_ = _char_variables(f)
         nodes = [n for n in preorder_stmts(f.node) if isinstance(n, (ast.If, ast.While))]
+        cfg = CFG(f.node)
+        flow = Flow(cfg, f.params)
         self.node = None
         for n in nodes:
+            # the test as written, with a hoisted condition (`valid = '0' <= ch <= '9' or ...; if not valid:`) put back
+            at = cfg.entry_of(n)
+            test = flow.deref(at, n.test) if at is not None else n.test
             for v in sorted(vars_):
-                if _is_char_test(n.test, v):
-                    self.node, self.var = n, v
+                if _is_char_test(test, v):
+                    self.node, self.var, self.test = n, v, test
                     break
             if self.node is not None:
                 break
@@ -740,11 +800,11 @@ class CharClass:
             self.pass_when = True
         else:
             raise AnalysisError('%s: cannot tell which branch of the character test passes the character through' % f.qualname)
-        self.text = norm(n.test)
+        self.text = norm(self.test)
 
     def passes(self, c):
         """True / False / None (depends on something else than the character)."""
-        v = CW.eval_cond(self.repo, self.node.test, {self.var: c})
+        v = CW.eval_cond(self.repo, self.test, {self.var: c})
         if v is None:
             return None
         return v if self.pass_when else (not v)
@@ -975,16 +1035,25 @@ def r_directive_after_open_ended(ctx, repo):
     # the duration of the handler; those tested more than once correlate the branches and are enumerated
     assigned = {nm for n in cfg.nodes for nm in Flow.bound_names(n)}
     count = {}
+
+    def atoms_of(e, out):
+        if isinstance(e, ast.BoolOp):
+            for v in e.values:
+                atoms_of(v, out)
+        elif isinstance(e, ast.UnaryOp) and isinstance(e.op, ast.Not):
+            atoms_of(e.operand, out)
+        else:
+            out.append(e)
+        return out
     for n in cfg.nodes:
         if n.kind != 'test' or n.ast is None:
             continue
-        e = S.resolved(n)
-        if any(isinstance(x, ast.Call) for x in ast.walk(e)):
-            continue
-        if any(isinstance(x, ast.Name) and x.id in assigned for x in ast.walk(e)):
-            continue
-        inner, pos = A.strip_not(e)
-        count[norm(inner)] = count.get(norm(inner), 0) + 1
+        for e in atoms_of(S.resolved(n), []):
+            if any(isinstance(x, ast.Call) for x in ast.walk(e)):
+                continue
+            if any(isinstance(x, ast.Name) and x.id in assigned for x in ast.walk(e)):
+                continue
+            count[norm(e)] = count.get(norm(e), 0) + 1
     open_atoms = [k for k in count if k == 'self.open_ended']
     if not open_atoms:
         raise AnalysisError('expect_document_start: self.open_ended is never tested')
@@ -999,9 +1068,7 @@ def r_directive_after_open_ended(ctx, repo):
                 continue
 
             def hook(e, asg=asg):
-                inner, pos = A.strip_not(e)
-                v = asg.get(norm(inner))
-                return None if v is None else (v if pos else not v)
+                return A.eval3(e, lambda a: asg.get(norm(a)))
             r = S.reach(blocked=dots, hook=hook)
             if any(w in r for w in sites[kind]):
                 witness = asg
@@ -1030,13 +1097,23 @@ def r_tag_suffix_nonempty(ctx, repo):
     S = Scenario(repo, f)
     n = 0
     for st in walk_function(f.node):
-        # suffix = tag[len(prefix):]  - the statement that strips a registered prefix
-        if isinstance(st, ast.Assign) and isinstance(st.value, ast.Subscript) and isinstance(st.value.slice, ast.Slice) \
-                and isinstance(st.value.value, ast.Name) and st.value.value.id == tagp \
-                and st.value.slice.lower is not None and st.value.slice.upper is None \
-                and isinstance(st.value.slice.lower, ast.Call) and norm(st.value.slice.lower.func) == 'len' \
-                and len(st.value.slice.lower.args) == 1 and isinstance(st.value.slice.lower.args[0], ast.Name):
-            p = st.value.slice.lower.args[0].id
+        # suffix = tag[len(prefix):]  (or tag.removeprefix(prefix)) - the statement that strips a registered prefix
+        if not isinstance(st, ast.Assign):
+            continue
+        at = S.cfg.nodes_of(st)
+        val = S.flow.deref(at[0], st.value) if at else st.value        # `n = len(prefix); ... tag[n:]` reads as tag[len(prefix):]
+        p = None
+        if isinstance(val, ast.Subscript) and isinstance(val.slice, ast.Slice) \
+                and isinstance(val.value, ast.Name) and val.value.id == tagp \
+                and val.slice.lower is not None and val.slice.upper is None \
+                and isinstance(val.slice.lower, ast.Call) and norm(val.slice.lower.func) == 'len' \
+                and len(val.slice.lower.args) == 1 and isinstance(val.slice.lower.args[0], ast.Name):
+            p = val.slice.lower.args[0].id
+        elif isinstance(val, ast.Call) and isinstance(val.func, ast.Attribute) and val.func.attr == 'removeprefix' \
+                and isinstance(val.func.value, ast.Name) and val.func.value.id == tagp and len(val.args) == 1 \
+                and isinstance(val.args[0], ast.Name):
+            p = val.args[0].id
+        if p is not None:
             n += 1
             nodes = S.cfg.nodes_of(st)
             # scenario: the tag *equals* a registered prefix other than '!': stripping it would leave nothing
